@@ -162,6 +162,11 @@ main(void) {
 		}
 		if (h_line[0] == 'm') { /* m <n>: move the table image on every n-th arena allocation (0 = off) */
 			_lou_verif_arena_move = atoi(h_line + 1);
+			_lou_verif_arena_tight = 0;
+			if (_lou_verif_arena_move < 0) { /* negative: no slack instead - every allocation takes the real growth path */
+				_lou_verif_arena_move = 0;
+				_lou_verif_arena_tight = 1;
+			}
 			continue;
 		}
 		if (h_line[0] == 'b') {
